@@ -215,7 +215,7 @@ CONFIGS = {
     "abortw_narrow_16_on_32": (dict(wb_dw=16, port_dw=32, write_aborts=True), 20, 26, "qt"),
     "equal_32": (dict(wb_dw=32, port_dw=32), 20, 30, "qt"),
     "equal_32_queued_wdata": (dict(wb_dw=32, port_dw=32, queued_wdata=True), 18, 26, "qt"),
-    "equal_32_base": (dict(wb_dw=32, port_dw=32, base=0x40), 0, 28, "t"),
+    "equal_32_base": (dict(wb_dw=32, port_dw=32, base=0x14), 18, 28, "qt"),
     "narrow_16_on_32": (dict(wb_dw=16, port_dw=32), 20, 30, "qt"),
     "narrow_8_on_32": (dict(wb_dw=8, port_dw=32), 0, 28, "t"),
     "wide_32_on_16": (dict(wb_dw=32, port_dw=16), 18, 26, "qt"),
